@@ -825,19 +825,34 @@ impl TypeSpace {
             .collect::<Vec<_>>();
 
         // Does the root type have a name (otherwise... ignore it)
-        let root_type = schema
-            .metadata
-            .as_ref()
-            .and_then(|m| m.title.as_ref())
-            .is_some();
+        let root_title = schema.metadata.as_ref().and_then(|m| m.title.clone());
+        let root_type = root_title.is_some();
 
-        if root_type {
+        // A self-referential root type also appears among its own definitions
+        // (this is what schemars emits); in that case the definition is the
+        // root type and we must not define it a second time.
+        let root_def = root_title.filter(|title| {
+            let mut untitled = schema.clone();
+            if let Some(metadata) = untitled.metadata.as_mut() {
+                metadata.title = None;
+                if **metadata == Metadata::default() {
+                    untitled.metadata = None;
+                }
+            }
+            defs.iter().any(|(key, def)| {
+                key == &RefKey::Def(title.clone()) && def == &Schema::Object(untitled.clone())
+            })
+        });
+
+        if root_type && root_def.is_none() {
             defs.push((RefKey::Root, schema.into()));
         }
 
         self.add_ref_types_impl(defs)?;
 
-        if root_type {
+        if let Some(title) = root_def {
+            Ok(self.ref_to_id.get(&RefKey::Def(title)).cloned())
+        } else if root_type {
             Ok(self.ref_to_id.get(&RefKey::Root).cloned())
         } else {
             Ok(None)
